@@ -1590,3 +1590,64 @@ def projector_schemes_cap(mk, scheme, arg, opt, chi):
         mk.same("lazy: every bond between two inserted projectors <= chi", max(bonds + [chi]), chi)
     else:
         cap_goal(mk, f"{scheme}({arg}, max_bond={chi}, cutoff=0.0, {opt})", res, max(chi, 2))
+
+
+# ---------------------------------------------------------------------- 3D lattices
+
+PAT3D = {
+    "all": lambda a, b: 2,
+    "x": lambda a, b: 2 if a[0] != b[0] else 1,            # every bond along x
+    "y": lambda a, b: 2 if a[1] != b[1] else 1,
+    "z": lambda a, b: 2 if a[2] != b[2] else 1,
+    "yz": lambda a, b: 2 if a[0] == b[0] else 1,           # every bond inside the x planes
+    "xz": lambda a, b: 2 if a[1] == b[1] else 1,
+    "xy": lambda a, b: 2 if a[2] == b[2] else 1,
+    "path": lambda a, b: 2 if frozenset((a, b)) in _PATH3D else 1,
+    "one": lambda a, b: 1,
+}
+_PATH3D = {frozenset(((0, 0, 0), (1, 0, 0))), frozenset(((1, 0, 0), (1, 1, 0))), frozenset(((1, 1, 0), (1, 1, 1))),
+           frozenset(((0, 0, 0), (0, 0, 1))), frozenset(((0, 0, 1), (0, 1, 1)))}
+
+
+def lattice3d(mk, Lx, Ly, Lz, pattern="all", kind="real", numkind=None):
+    pat = PAT3D[pattern] if mk.sym else PAT3D["all"]
+    k = kind if mk.sym else (numkind or kind)
+    tn = qtn.TensorNetwork3D.new(Lx=Lx, Ly=Ly, Lz=Lz, site_tag_id="I{},{},{}", x_tag_id="X{}", y_tag_id="Y{}", z_tag_id="Z{}")
+    L = (Lx, Ly, Lz)
+    for i, j, k_ in itertools.product(range(Lx), range(Ly), range(Lz)):
+        inds, shape = [], []
+        for ax in range(3):
+            for step in (-1, 1):
+                nb = [i, j, k_]
+                nb[ax] += step
+                if 0 <= nb[ax] < L[ax]:
+                    a, b = sorted(((i, j, k_), tuple(nb)))
+                    inds.append(_bname(a, b))
+                    shape.append(pat(a, b))
+        tn |= qtn.Tensor(mk.array(f"T{i}{j}{k_}", tuple(shape), k), inds, tags=[f"I{i},{j},{k_}", f"X{i}", f"Y{j}", f"Z{k_}"])
+    return tn
+
+
+_DIRS3 = ("xmin", "xmax", "ymin", "ymax", "zmin", "zmax")
+
+
+def _shape3(direction):
+    ax = "xyz".index(direction[0])
+    s = [2, 2, 2]
+    s[ax] = 3
+    return tuple(s)
+
+
+OPTS3D = {
+    "peps": dict(mode="peps"),
+    "peps-nocanon": dict(mode="peps", canonize=False),
+    "peps-nointerleave": dict(mode="peps", canonize_interleave=False),
+    "peps-early": dict(mode="peps", compress_late=False),
+    "projector3d": dict(mode="projector3d"),
+    "l2bp3d": dict(mode="l2bp3d"),
+    "local-early": dict(mode="local-early"),
+    "local-late": dict(mode="local-late"),
+    "projector": dict(mode="projector"),
+    "superorthogonal": dict(mode="superorthogonal"),
+    "l2bp": dict(mode="l2bp"),
+}
